@@ -227,9 +227,15 @@ package wmpt
 //@ ufun StoresValue(h Ref) bool
 //@ func (*WeightedMerkleTrie).resolveHashNode(t, node) returns (n, err)
 //@   trusted
-//@   requires node != nil
+//@   props C09
+//@   opt bodyfor C09
+//@   mode wrap
+//@   requires t != nil && node != nil
 //@   assigns nothing
-//@   ensures err == nil ==> n != nil && fresh(n) && !(n is *hashNode) && W(n) == node.weight && (StoresValue(node) ==> n is *valueNode)
+// checked on the body: what is loaded is a private, newly decoded object (insert overwrites it in place)
+//@   ensures err == nil ==> n != nil && fresh(n)                                                             #loaded-node-is-a-private-copy
+// assumed of the storage (A-store): the bytes under a hash are the node that was stored there
+//@   ensures err == nil ==> !(n is *hashNode) && W(n) == node.weight && (StoresValue(node) ==> n is *valueNode)      #assumed-store-content
 
 // insert returns the weight delta of the subtree it was given: new weight = old weight + change.
 // In the path-exhausted case (len(key) == 0) no recursion is involved and the clause is exact; the
